@@ -109,20 +109,23 @@ CHECKS = {
 ADD = {
  "C01": " Host names are also taken from a constants dictionary (every string literal of the client and public-suffix sources that can be a label or name - which includes every label of the generated suffix table - alone, below and above a registrable domain and with a letter glued on either side), and custom providers fail with each of their error variants.",
  "C02": " Extension interplay is a dimension (hmac-secret configurations of the authenticator, credProps/prf members in the request), also inside the sequences.",
- "C03": " Extension interplay (authenticator with hmac-secret, credProps / empty prf / prf on an incapable authenticator) and allow-list entries of unknown type are part of the action alphabet.",
- "C04": " At CTAP2 level the whole product also runs on an authenticator with hmac-secret enabled, credentials carrying secrets and requests asking for a PRF evaluation.",
- "C05": " RP IDs also in upper case and with a trailing dot; descriptors with five transports-hint shapes; stores that answer Ok(empty).",
+ "C03": " Extension interplay (authenticator with hmac-secret, credProps / empty prf / prf on an incapable authenticator) and allow-list entries of unknown type are part of the action alphabet. Six origins (incl. an explicit non-default port and the Android origin).",
+ "C04": " At CTAP2 level the whole product also runs on an authenticator with hmac-secret enabled, credentials carrying secrets and requests asking for a PRF evaluation. Requests also reach the authenticator in three wire presentations (encoded+decoded, default-valued options elided, empty options map dropped).",
+ "C05": " RP IDs also in upper case and with a trailing dot; descriptors with five transports-hint shapes; stores that answer Ok(empty). Listed ids also in a value relation to a held id (strict prefix, one more byte, empty).",
  "C06": " A credential created by the library itself is additionally asserted (CTAP2 level and through the client with pre-hashed inputs) with every salt of a constants dictionary: each string literal of the library sources of the current working tree as SHA-256, zero-padded, and under the client's salt derivation.",
- "C07": " Silent assertions (up=false) with and without PRF, late-failing requests.",
+ "C07": " Silent assertions (up=false) with and without PRF, late-failing requests. Three request shapes run through the WebAuthn client (credProps, credProps+prf, prf) under the same fault plans and cancellation points.",
  "C08": " The same histories also on Arc<Mutex<MemoryStore>>; silent assertions.",
- "C09": " Quick tier covers salt lengths {0,16,32,33,64} and two-salt requests.",
- "C10": " Every label of the list's vocabulary is crossed with every rule body (quick: the 64 most frequent labels).",
- "C11": " The product additionally runs over hmac-secret configuration (4) x prf input (3) x counters: 1956 configurations.",
- "C13": " A further value variant has every nested optional structure and list present but empty, and every serialisation must be exactly one CBOR map spanning all bytes written.",
+ "C09": " Quick tier covers salt lengths {0,16,32,33,64} and two-salt requests. Default inputs also from the constants dictionary (raw and pre-hashed).",
+ "C10": " Every label of the list's vocabulary is crossed with every rule body (quick: the 64 most frequent labels). Findings carry the last three lookups of their worker thread and are replayed on a fresh thread alone and after that history; ordered five-name sequences per rule with labels shared across levels.",
+ "C11": " The product additionally runs over hmac-secret configuration (4) x prf input (3) x counters: 1956 configurations. The store is handed over bare and inside each shipped lock wrapper.",
+ "C13": " A further value variant has every nested optional structure and list present but empty, and every serialisation must be exactly one CBOR map spanning all bytes written. One variant repeats entries in every list.",
  "C15": " Scaling families: 14 well-formed shapes whose collection grows to 256..16384 (65536) elements with keys differing only at the front / end / middle; 4x the elements may cost at most 9x the thread CPU time and no allocation out of proportion.",
- "C17": " Control byte {0x03,0x07,0x08} x further flag bits in every single run.",
- "C18": " Present-but-empty allow/exclude lists; descriptor type {public-key, unknown}; sequence alphabet of six operations.",
- "C19": " Non-resident registrations and list-less assertions are part of the scenarios.",
+ "C17": " Control byte {0x03,0x07,0x08} x further flag bits in every single run. Third store Arc<Mutex<Option<Passkey>>>; unknown handles are the registered handle plus / minus a byte, with one byte changed, and the empty handle.",
+ "C18": " Present-but-empty allow/exclude lists; descriptor type {public-key, unknown}; sequence alphabet of six operations. Store failures with seven status values, compared as values (two values share byte 0x00).",
+ "C19": " Non-resident registrations and list-less assertions are part of the scenarios. A store that loses one counter write-back: two assertions in sequence, alone and next to a registration.",
+ "C12": " RP ids in six spellings (upper case, android facet, trailing dot).",
+ "C14": " Emitted credentials for three user ids (default, empty, 64 bytes).",
+ "C16": " Starvation family: a message held back between two of its packets while other channels send 0..300 (1100), 1024, 2048, 4096, 10000 packets of whole messages in three traffic shapes.",
 }
 
 NOT_BUILT = "check not built yet in this revision of the harness (planned per DESIGN.md §2); no claim is made"
